@@ -17,13 +17,15 @@ import XotModel.Driver.Forest
 
 namespace XotModel.Driver
 
+namespace Fclone
+
 def showPairs (l : List (Nat × Nat)) : String :=
   String.intercalate "," (l.map fun (p, n) => s!"{p}:{n}")
 
 def sortPairs (l : List (Nat × Nat)) : List (Nat × Nat) :=
   (l.toArray.qsort (fun a b => a.1 < b.1 || (a.1 == b.1 && a.2 < b.2))).toList
 
-def parseNatList (w : String) : Option (List Nat) :=
+def parsePrefixOrder (w : String) : Option (List Nat) :=
   if w == "-" then some [] else
   (w.splitOn ",").foldr (fun part acc => match acc, part.toNat? with
     | some l, some n => some (n :: l)
@@ -44,12 +46,15 @@ where
     | a :: as, b :: bs => treeEq a b && listEq as bs
     | _, _ => false
 
+end Fclone
+
+open Fclone in
 def handleFclone (env : Env) (s : FState) (ws : List String) : Option (FState × String) :=
   let node (w : String) : Option Nat := do s.handleOf (← w.toNat?)
   match ws with
   | ["clone_prefixes", a, order] => do
       let h ← node a
-      let observed ← parseNatList order
+      let observed ← parsePrefixOrder order
       let canon := s.forest.inheritedPrefixes env h
       let inh := "inh=" ++ showPairs (sortPairs canon)
       match s.forest.cloneWithPrefixes h (arrange canon observed) with
